@@ -1619,6 +1619,52 @@ pub fn fam_long_strings(cfg: &Config, flags: Flags, max: usize) -> (Report, Vec<
 	})
 }
 
+/// Long lexemes other than strings: digit runs of every length in each part of
+/// a number, blank runs of every length between tokens, long runs of one-token
+/// items; each also followed by something ill-formed.
+pub fn fam_long_lexemes(cfg: &Config, flags: Flags, max: usize) -> (Report, Vec<u8>) {
+	let name = "long-numbers-blank-runs-and-item-runs-of-every-length";
+	run_family(cfg, flags, name, 32, &move |i, mon| {
+		let mut n = 0u64;
+		let mut l = i + 1;
+		let mut doc = String::new();
+		let blanks = [' ', '\t', '\n', '\r'];
+		while l <= max {
+			let digits: String = (0..l).map(|k| char::from(b'1' + ((k * 7 + l) % 9) as u8)).collect();
+			let zeros = "0".repeat(l);
+			let ws: String = (0..l).map(|k| blanks[(k + l) % 4]).collect();
+			let docs: [String; 14] = [
+				digits.clone(),
+				format!("-{}", digits),
+				format!("[0.{},1]", digits),
+				format!("{{\"k\":-{}.{}e-{}}}", digits, zeros, digits),
+				format!("[1E+{} ,2]", zeros),
+				format!("[{}.5e1{}]", digits, zeros),
+				// ill-formed tails after a long run
+				format!("[{}.]", digits),
+				format!("{}e", digits),
+				format!("[{}{}]", digits, '\u{e9}'),
+				format!("0{}", digits),
+				// blank runs
+				format!("{}[{}1{},{}{{{}\"a\"{}:{}null{}}}{}]{}", ws, ws, ws, ws, ws, ws, ws, ws, ws, ws),
+				format!("[1{}2]", ws),
+				format!("{}{}1", ws, '\u{a0}'),
+				// runs of small items
+				format!("[{}[]]", "0,".repeat(l)),
+			];
+			for d in docs.iter() {
+				doc.clear();
+				doc.push_str(d);
+				mon.input(name, doc.as_bytes());
+				n += 1;
+			}
+			l += 32;
+		}
+		mon.rep.distinct_by_construction(n);
+		mon.rep.max("longest_lexeme_swept", max as u64);
+	})
+}
+
 /// Reference self-test against the corpus labels (y_ accepted, n_ rejected).
 pub fn selftest_reference(cfg: &Config) -> Result<usize, String> {
 	let corpus = gen::load_corpus(&cfg.repo_dir);
